@@ -221,9 +221,20 @@ def build_class(prog):
         self.__dict__.setdefault('_status_ev', []).append((kind, arg, self.status))
 
     def set_status(self, status):
-        super(klass, self).set_status(status)
+        if self.__dict__.get('_verif_extstatus'):
+            # a class that keeps its status on a record of its own (as a process tied to a database node does): the public
+            # `status` / `set_status` pair is the interface, the private attribute is not
+            self.__dict__['_ext_status'] = status
+        else:
+            super(klass, self).set_status(status)
         if not self.__dict__.get('_hookdepth', 0):
             _rec(self, 'S', status)
+
+    def status(self):
+        if self.__dict__.get('_verif_extstatus'):
+            return self.__dict__.get('_ext_status')
+        return plumpy.Process.status.fget(self)
+    cls.status = property(status)
 
     def on_paused(self, msg=None):
         self.__dict__['_hookdepth'] = self.__dict__.get('_hookdepth', 0) + 1
@@ -438,6 +449,9 @@ class Run:
             self.p = p = cls(loop=self.loop)
             if hookstatus:
                 p.__dict__['_verif_hookstatus'] = True
+            if hookstatus == 'ext':
+                p.__dict__['_verif_extstatus'] = True
+                p.__dict__['_verif_hookstatus'] = False
             if uout:            # (not for the runs that are checkpointed: outputs are part of the saved state)
                 p.__dict__['_verif_uout'] = True
                 if driver == 'steps':       # (half of them: the class also overrides the public `outputs` accessor)
